@@ -4,7 +4,7 @@ import numpy as np
 import common as C
 import gen
 import impl
-from props.c02 import hquad
+from props.c02 import hquad, fit_delta, iface_theta
 from props.c05 import noisy
 
 RULE = ("tissues (equilibrium straight / Moebius, noisy) compared with their images under translations (up to 1e4 tissue sizes), "
@@ -14,7 +14,9 @@ RULE = ("tissues (equilibrium straight / Moebius, noisy) compared with their ima
 TRUSTED = ["theorems oriented_tangent_equivariant / rhs_scale_invariant (Proofs/ForceSysProofs.v) for the stated orientation rule; the code's "
            "per-component rule is refuted (known finding D1); tolerances scale with the conditioning of the augmented system",
            "the multiplier value is captured from the solver by proxy (known finding D3 is attributed by multiplier > 1e-9)"]
-ASSUMPTIONS = ["tolerance = 1e-9 * cond (two-point / taubinSVD), 1e-3 * (1 + cond/100) for dlite fits; dynamic: 20 * 5e-4 * sqrt(rows) * |pinv|"]
+ASSUMPTIONS = ["static: coefficient pairs may differ by twice the circle-fit accuracy (c02.fit_delta) plus coordinate rounding (ulp(max |coord|) / "
+               "shortest edge); tensions by (1e-9 + rounding) * cond + 3 (|E| |x| / smin + |E| |r| / smin^2) with E the measured change of the "
+               "coefficient pairs; dynamic: 20 * 5e-4 * sqrt(rows) * |pinv|"]
 TESTED_NOT_PROVED = ["end-to-end invariance of tensions and pressures is evaluated by the oracle; only the tangent equivariance and the adimensional "
                      "scaling of the right-hand side are proved"]
 IMPORTS = "From Forsys Require Import Model.CaseUtil.\n"
@@ -27,14 +29,15 @@ def solve_static(spec, fit):
         f.build_force_matrix(when=0, circle_fit_method=fit, angle_limit=np.inf)
         with impl.capture_solvers() as rec:
             f.solve_stress(when=0, allow_negatives=False)
-        lam = None
+        lam, xvec = None, None
         for c in rec.calls[::-1]:
             if c["x"] is not None:
                 lam = float(c["x"][-1])
+                xvec = np.array(c["x"], dtype=float).ravel()
                 break
         fm = f.force_matrices[0]
         M = np.array(fm.matrix)
-        out = {"frame": fr, "lam": lam, "M": M, "fm": fm}
+        out = {"frame": fr, "lam": lam, "M": M, "fm": fm, "xvec": xvec}
         out["tension"] = {(tuple(sorted(be.own_cells)), tuple(sorted((be.vertices[0].id, be.vertices[-1].id)))): be.tension for be in fr.internal_big_edges}
         try:
             f.build_pressure_matrix(when=0)
@@ -45,6 +48,13 @@ def solve_static(spec, fit):
     A = np.vstack([np.hstack([M, np.ones((M.shape[0], 1))]), np.hstack([np.ones(M.shape[1]), [0.0]])]) if M.size else np.zeros((1, 1))
     sv = np.linalg.svd(A, compute_uv=False)
     out["cond"] = float(sv[0] / sv[-1]) if sv[-1] > 0 else float("inf")
+    out["smin"] = float(sv[-1])
+    if out["xvec"] is not None and M.size and len(out["xvec"]) == A.shape[1]:
+        rhs = np.concatenate([np.zeros(M.shape[0]), [float(M.shape[1])]])
+        out["xnorm"] = float(np.linalg.norm(out["xvec"]))
+        out["rnorm"] = float(np.linalg.norm(A @ out["xvec"] - rhs))
+    else:
+        out["xnorm"] = out["rnorm"] = None
     out["determined"] = bool(M.size and A.shape[0] >= A.shape[1] and sv[-1] > 1e-6 * sv[0])
     return out
 
@@ -92,7 +102,12 @@ def check_static(res, spec, tr, fit, label, analytic):
         lmin = min(math.hypot(pos[e[1]][0] - pos[e[2]][0], pos[e[1]][1] - pos[e[2]][1]) for e in sp["edges"])
         eps_dir += 8 * 2.3e-16 * maxabs / lmin
     amp = 1.0 if two_point else 1e3          # a circle fit amplifies point perturbations
-    tol = (1e-9 + amp * eps_dir) * cond if (two_point or fit == "taubinSVD") else 1e-3 * (1 + cond / 100)
+    base_tol = (1e-9 + amp * eps_dir) * cond
+    straight = spec.get("meta", {}).get("mobius") is None
+    theta_of = {}
+    for it in spec.get("ifaces", []):
+        if "tan0" in it and "tan1" in it:
+            theta_of[frozenset((it["pts"][0], it["pts"][-1]))] = iface_theta(it)
     nd1 = d1_count(A["frame"], fit) + d1_count(B["frame"], fit)
     lam = max(abs(A["lam"] or 0.0), abs(B["lam"] or 0.0))
     worst, who = 0.0, None
@@ -106,7 +121,7 @@ def check_static(res, spec, tr, fit, label, analytic):
     # coefficient pairs rotate / reflect with the tissue
     c_, s_ = math.cos(tr.get("theta", 0.0)), math.sin(tr.get("theta", 0.0))
     refl = -1.0 if tr.get("reflect") else 1.0
-    cw = 0.0
+    cw, cexcess, fro2 = 0.0, 0.0, 0.0
     colB = {tuple(e): k for k, e in enumerate(B["fm"].big_edges_to_use)}
     for v, r in A["fm"].map_vid_to_row.items():
         rb = B["fm"].map_vid_to_row.get(v)
@@ -119,12 +134,31 @@ def check_static(res, spec, tr, fit, label, analytic):
                 cw = float("inf")
                 break
             x, y = A["M"][r, k], refl * A["M"][r + 1, k]
-            cw = max(cw, abs(B["M"][rb, kb] - (c_ * x - s_ * y)), abs(B["M"][rb + 1, kb] - (s_ * x + c_ * y)))
+            if x == 0 and y == 0 and B["M"][rb, kb] == 0 and B["M"][rb + 1, kb] == 0:
+                continue
+            d0, d1 = abs(B["M"][rb, kb] - (c_ * x - s_ * y)), abs(B["M"][rb + 1, kb] - (s_ * x + c_ * y))
+            cw = max(cw, d0, d1)
+            fro2 += d0 * d0 + d1 * d1
+            # accuracy of the circle fit in either pose (c02.fit_delta; exact arcs / lines only) plus coordinate rounding
+            if len(e) == 2 or fit == "taubinSVD" and analytic is not False:
+                ctol_e = 1e-9 + amp * eps_dir
+            elif analytic is not False and frozenset((e[0], e[-1])) in theta_of:
+                ctol_e = 2 * fit_delta(fit, len(e), theta_of[frozenset((e[0], e[-1]))], straight) + amp * eps_dir
+            else:
+                ctol_e = (1e-9 + amp * eps_dir) if fit == "taubinSVD" else 2e-3
+            cexcess = max(cexcess, max(d0, d1) - ctol_e)
+    # a solution of a (constrained) least-squares problem moves by at most |E| |x| / smin + |E| |r| / smin^2 (first order) when its
+    # matrix moves by E; E is the measured change of the coefficient pairs (bounded entry by entry above)
+    fro = math.sqrt(fro2)
+    smin = min(A["smin"], B["smin"])
+    if A["xnorm"] is not None and smin > 0:
+        tol = base_tol + 3 * (fro * A["xnorm"] / smin + fro * max(A["rnorm"], B["rnorm"] or 0.0) / smin ** 2)
+    else:
+        tol = base_tol if (two_point or fit == "taubinSVD") else 1e-3 * (1 + cond / 100)
     res.sample({"label": label, "transform": tr, "fit": fit, "tension_change": worst, "pressure_change": pw, "coefficient_change": cw,
                 "tolerance": tol, "multiplier": lam, "d1_ends": nd1, "cond": cond})
     msgs = []
-    ctol = (1e-9 + amp * eps_dir) if (two_point or fit == "taubinSVD") else 2e-3
-    if cw > ctol:
+    if cexcess > 0:
         msgs.append(f"coefficient pairs do not rotate with the tissue (off by {cw:.3g})")
     if not worst <= tol:
         msgs.append(f"tension of interface {who} changes by {worst:.3g} under {tr} (tolerance {tol:.2g})")
